@@ -1,0 +1,28 @@
+//go:build verif
+// +build verif
+
+package rtsp
+
+import (
+	"bufio"
+
+	"github.com/cnotch/xlog"
+)
+
+// VerifReceiveHandler mirrors the unexported receiveHandler for the verification harness (C14).
+type VerifReceiveHandler struct {
+	OnRequest  func(req *Request) error
+	OnResponse func(resp *Response) error
+	OnPack     func(pack *RTPPack) error
+}
+
+type verifReceiveAdapter struct{ h *VerifReceiveHandler }
+
+func (a verifReceiveAdapter) onRequest(req *Request) error    { return a.h.OnRequest(req) }
+func (a verifReceiveAdapter) onResponse(resp *Response) error { return a.h.OnResponse(resp) }
+func (a verifReceiveAdapter) onPack(pack *RTPPack) error      { return a.h.OnPack(pack) }
+
+// VerifReceive runs the session/pull-client message dispatcher `receive` once on r.
+func VerifReceive(r *bufio.Reader, channels []int, h *VerifReceiveHandler) error {
+	return receive(xlog.New(nil), r, channels, verifReceiveAdapter{h})
+}
